@@ -97,10 +97,9 @@ Definition c02_commitment_full : Prop :=
    explicit hash collision.  If the owner of pk0 signed only sh0 (producing sg0), every accepted
    spend of the P2WPKH output has sighash sh0 and ends in [sg0; pk0]: any change of key,
    signature or signature hash is rejected. *)
-Theorem c02_commitment_p2wpkh_partial : forall cr,
-  (forall x, length (h_ripemd160 cr x) = 20%nat) ->
-  forall (signed : item -> item -> item -> Prop),
+Theorem c02_commitment_p2wpkh_partial : forall cr (signed : item -> item -> item -> Prop),
   (forall pk msg sg, sig_verify cr pk msg sg = true -> signed pk msg sg) ->
+  (forall x, length (h_ripemd160 cr x) = 20%nat) ->
   forall pk0 sh0 sg0, (forall msg sg, signed pk0 msg sg -> msg = sh0 /\ sg = sg0) ->
   forall cx sh' other f sd args' gas,
     cx_vmversion cx = 1%N -> cx_code cx = convert_program other (p2w_program (h_ripemd160 cr pk0)) ->
